@@ -651,4 +651,11 @@ def c15_i(ctx: Ctx):
     return out
 
 
-RULES = [c15_a, c15_b, c15_c, c15_d, c15_e, c15_f, c15_g, c15_h, c15_i]
+@rule("C15-j")
+def c15_j(ctx: Ctx):
+    """Command line front end of sync: an empty selection selects nothing, the selection is not computed in the destination, option values arrive unchanged."""
+    from . import cli
+    return cli.selection_discipline(ctx, "C15-j", {"main_sync"}) + cli.selection_from_source(ctx, "C15-j") + cli.option_forwarding(ctx, "C15-j", ["main_sync"])
+
+
+RULES = [c15_a, c15_b, c15_c, c15_d, c15_e, c15_f, c15_g, c15_h, c15_i, c15_j]
